@@ -992,6 +992,9 @@ struct Drv<'a> {
     trace: bool,
     /// virtual time by which every session ended so far has certainly timed out on the other side
     slow_until: u64,
+    /// the server application streams: one small unreliable message per tick to every id the message layer holds,
+    /// dead or alive (the game-server pattern; every such datagram refreshes the server's last-send time)
+    stream: bool,
 }
 
 impl<'a> Drv<'a> {
@@ -1018,6 +1021,7 @@ impl<'a> Drv<'a> {
                 Err(_) => false,
             },
             slow_until: 0,
+            stream: false,
         };
         for k in 0..n {
             d.id[k] = Some(100 + k as u64);
@@ -1159,6 +1163,12 @@ impl<'a> Drv<'a> {
         self.events_and_state();
         if traffic > 0 {
             self.traffic_server(rng, traffic);
+        }
+        if self.stream {
+            for id in self.st.rc.clone() {
+                self.ctr = self.ctr.wrapping_add(1);
+                self.x(&format!("t-send s{} 0 {:04x}{}", id, self.ctr, hex(&rng.payload(6))));
+            }
         }
         self.x("t-ssend");
     }
@@ -1376,7 +1386,18 @@ fn script_lossless(rng: &mut Rng, _tier: Tier, ex: &mut dyn FnMut(&str) -> Strin
             }
         }
     }
-    d.wait_lossless(rng, 500_000);
+    if rng.chance(1, 3) {
+        // the server keeps streaming to every session (also the dead ones) in ticks shorter than the 250 ms send
+        // interval while the time-outs run
+        d.stream = true;
+        let small = rng.pick(&[50_000u64, 100_000, 200_000, 249_000]);
+        d.wait_lossless(rng, small);
+        d.round_lossless(rng, small, 0);
+        d.round_lossless(rng, small, 0);
+        d.stream = false;
+    } else {
+        d.wait_lossless(rng, 500_000);
+    }
     for _ in 0..3 {
         d.round_lossless(rng, dt.max(50_000), 0);
     }
